@@ -306,6 +306,19 @@ func mutants(n *node.Node, base *blockchain.Block, o node.BlockOpts, r *rand.Ran
 			return true
 		})
 	}
+	// a block that changes the validator set but carries the validators hash of the parameters
+	// in force before it (re-signed): the hash must be the one of the execution result
+	if d := node.DirectiveFromAssets(base.Assets); d.Change != nil {
+		add("validatorsHash:of-superseded-parameters", true, func(b *blockchain.Block) bool {
+			cur, err := n.Exec.GetBFTParameters(n.Exec.VerifStateStore(), b.Header.Height)
+			if err != nil || bytes.Equal(cur.ValidatorsHash(), b.Header.ValidatorsHash) {
+				return false
+			}
+			b.Header.ValidatorsHash = append([]byte{}, cur.ValidatorsHash()...)
+			reseal(n, b, key)
+			return true
+		})
+	}
 	// payload changed without updating the root (header untouched => signature still valid)
 	add("payload:transaction-added-root-unchanged", true, func(b *blockchain.Block) bool {
 		b.Transactions = append(b.Transactions, n.NewTx(n.Universe[0], 7, 5000, node.TxVerifyOK, node.TxExecOK, 3))
